@@ -196,6 +196,10 @@ func NextToken(l *syntax.Lexer) (syntax.Token, error) {
 	ch := l.GetCurrentChar()
 	switch ch {
 	case syntax.RuneEOF:
+		// a NUL character inside the text is not the end of the text
+		if l.GetCursor() < len(l.Source) {
+			return syntax.Token{}, zerr.InvalidChar(ch, l.GetCursor())
+		}
 		return parseEOF(l)
 	case CharZHU, SlashOp:
 		// save current cursor location (as) savepoint - when parsing 注-like
